@@ -1,7 +1,8 @@
 """C01 - threshold soundness."""
 import random
 
-from ..engines import envelope, inplace, noise, threads
+from ..engines import envelope, hostile, inplace, noise, threads
+from ..gen import keys as gkeys
 from ..monitors import boundary, probes
 from ..refs import canonjson, models, openpgp, schema
 
@@ -110,6 +111,21 @@ def run_shard(spec, rec, lib):
             # and the same entries under the other signature mode
             twin2 = dict(case, gpg=not case["gpg"], stratum="twin-mode:" + case["stratum"])
             judge(twin2, rec, lib)
+            # and the same payload with the same (just verified) entries re-filed under OTHER key names, those names authorized
+            fresh = [k.hex for k in (gkeys.key(40 + j) for j in range(len(case["sigs"]))) if k.hex not in case["authorized"]]
+            if isinstance(case["authorized"], list) and fresh and all(isinstance(k, str) for k, _v in case["sigs"]):
+                refiled = [(fresh[j % len(fresh)], v) for j, (k, v) in enumerate(case["sigs"]) if k in case["authorized"]][: len(fresh)]
+                twin3 = dict(case, sigs=refiled, authorized=fresh, stratum="twin-refiled:" + case["stratum"],
+                             states=sorted(["refiled-under-other-key-after-accept"] * len(refiled)))
+                judge(twin3, rec, lib)
+                rec.count("refiled_twins_after_accept")
+        if i % 5 == 3:
+            # the same call in a process whose standard output fails: a diagnostic print that raises must not
+            # turn the rejection into an acceptance
+            tw = dict(case, stdout=rng.choice(hostile.MODES), stratum="stdout-fails:" + case["stratum"])
+            judge(tw, rec, lib)
+            rec.count("failing_stdout_runs")
+            rec.count("failing_stdout_write_attempts", tw.get("_stdout_write_attempts", 0))
         # second run with the probes on: inner invariants
         if i % 3 == 0:
             probe_pass(case, rec, lib, pr, model, out)
